@@ -1,6 +1,6 @@
 (** Statements of Props/Properties_C10.v assembled from the lemmas of RecordsP/H5UnitsP. *)
 From Coq Require Import List ZArith QArith Qcanon Bool.
-From Inovesa Require Import Base.FieldKit Model.Records Model.H5Units Proofs.RecordsP Proofs.H5UnitsP.
+From Inovesa Require Import Base.FieldKit Model.Records Model.H5Units Gen.Gen_H5Units Proofs.RecordsP Proofs.H5UnitsP Proofs.H5UnitsGenP.
 Import ListNotations.
 Local Open Scope Z_scope.
 
@@ -130,3 +130,15 @@ Proof.
   destruct (watt_formula K c E0 sE H frev Veff fs Ib ohm c_nz E0_nz sE_nz H_nz frev_nz Veff_nz fs_nz) as [W1 [W2 W3]].
   repeat split; assumption.
 Qed.
+
+Lemma units_match_source_c10 :
+  forall (K : Fld) (c E0 sE H frev Veff fs steps Ib deltaE ohm : K),
+    c <> f0 -> E0 <> f0 -> sE <> f0 -> H <> f0 -> frev <> f0 -> Veff <> f0 -> fs <> f0 -> steps <> f0 ->
+    a_Second_z K c E0 sE H frev Veff fs = gen_Second_z K (a_Meter K c E0 sE H frev Veff fs) c /\
+    a_Turn K frev fs = gen_Turn K (t_sync K fs) frev /\
+    a_Hertz K c E0 sE H frev Veff fs = gen_Hertz K (a_Meter K c E0 sE H frev Veff fs) c /\
+    a_Volt K E0 sE frev fs steps deltaE
+      = gen_Volt K deltaE (a_ElectronVolt K E0 sE) (revolutionpart K frev fs steps) /\
+    a_WattPerHertz K frev Ib ohm = gen_WattPerHertz K ohm Ib frev /\
+    a_Watt K c E0 sE H frev Veff fs Ib ohm = gen_Watt K ohm Ib frev (a_Hertz K c E0 sE H frev Veff fs).
+Proof. intros. apply units_match_source; assumption. Qed.
